@@ -501,6 +501,9 @@ def gen_registration(loader, check, replay_on=True):
             G = VTm.globals["VTGroup"]
             ok = p.outcome == "return" and bool(p.value.fields["group"] & G.EXTERNAL) and p.value.fields["external_type"] == ct
             check.ob("get_value_type_by_c_type#table: plugin types are external (passed through as operands)", ct, p.ctx.pc, ok)
+    # the helper / macro prototypes the argument conversion of macro_expr works from (data file against the prototype table)
+    from . import catalog
+    catalog.gen_macro_table(loader, check, replay_on)
     # compile_sub_routine: parameters in declaration order with their types, return type, registered under its name
     from .c14 import mk_compiler
     check.instances_declared += 1
